@@ -372,6 +372,7 @@ Definition final_event (m : mstate) : list Z :=
    | RRaised e => 91 :: exn_code o e
    | RFuel => [92]
    | RGoing => [93]
+   | RUnmodelled => [96]
    end)%Z.
 
 (** the state of the scenario's static objects when the run ended (compared with the real objects' fields) *)
@@ -405,10 +406,18 @@ Fixpoint trace_eqb (a b : list (list Z)) : bool :=
   | _, _ => false
   end.
 
+Definition unmodelled_trace (t : list (list Z)) : bool :=
+  match rev t with
+  | _ :: [_; 96%Z] :: _ => true
+  | _ => false
+  end.
+
 Fixpoint mismatches_from (i : nat) (steps fuel : nat) (cases : list (scenario * list (list Z))) : list nat :=
   match cases with
   | [] => []
   | (s, t) :: r =>
-      (if trace_eqb (run_scenario steps fuel s) t then [] else [i]) ++ mismatches_from (S i) steps fuel r
+      (let mt := run_scenario steps fuel s in
+       if unmodelled_trace mt then [10000 + i]          (* not predicted by the machine: counted, not compared *)
+       else if trace_eqb mt t then [] else [i]) ++ mismatches_from (S i) steps fuel r
   end.
 Definition mismatches := mismatches_from 0.
